@@ -24,6 +24,14 @@ structure MSt where
   L : KV := []
   LK : List Kind := []
   prev : Option (Obs × Obs) := none
+  /-- ghost: is entity 0 / 1 still tracked relative to the loaded map (false after StripAllPropertiesExcept until a
+  merge with an attached entity)? -/
+  att : Bool × Bool := (true, true)
+  /-- are the kind clauses judged? false once the case left the domain the kind theorems are stated for: duplicate
+  loaded kinds, one kinds slice shared by both nodes (`shared`), or a foreign Kind implementation (`A!`).  The kind
+  behaviour there is still compared with the heap model by the tie; the property clauses are stated under these guards
+  (Props/C12Heap.lean proves them exact and shows what breaks without them). -/
+  kj : Bool := true
 
 def field (t : String) (name : String) : Option String :=
   if t.startsWith (name ++ "=") then some (t.drop (name.length + 1)).toString else none
@@ -94,7 +102,7 @@ def pick (p : Obs × Obs) (e : Bool) : Obs := if e then p.2 else p.1
 def entNo (e : Bool) : Nat := if e then 1 else 0
 
 /-- post-condition of the operation on the observed before/after states; `none` = satisfied -/
-def judgeOp (L : KV) (LK : List Kind) (op : List String) (ret : String) (before after : Obs × Obs) : Option String :=
+def judgeOp (L : KV) (LK : List Kind) (att : Bool × Bool) (kj : Bool) (op : List String) (ret : String) (before after : Obs × Obs) : Option String :=
   let frame (site : String) (e : Bool) : Option String :=
     if pick after (!e) != pick before (!e) then some s!"{site}:other-entity-changed e={entNo (!e)}" else none
   let kindsSame (site : String) (e : Bool) : Option String :=
@@ -172,15 +180,48 @@ def judgeOp (L : KV) (LK : List Kind) (op : List String) (ret : String) (before 
             match (field k "kinds").bind parseKindList, (field dk "dkinds").bind parseKindList,
                   (field pr "props").bind parseMap, (field dp "dprops").bind parseSet with
             | some k, some dk, some pr, some dp =>
-              if !(reproducesB L cur.m (pr.getD []) dp) then
+              let attached := if e then att.2 else att.1
+              -- a detached entity (after StripAllPropertiesExcept) updates exactly the keys it carries
+              let partialOk := (keysOf L ++ keysOf cur.m ++ keysOf (pr.getD []) ++ dp).all (fun k =>
+                lookup (applyDelta L (pr.getD []) dp) k ==
+                  (if cur.mod.contains k || cur.del.contains k then lookup cur.m k else lookup L k))
+              if !(if attached then reproducesB L cur.m (pr.getD []) dp else partialOk) then
                 some s!"pg.NodeUpdateParameters:sent-properties-do-not-reproduce e={entNo e}"
-              else if !(kReproducesB LK cur.kinds k dk) then
+              else if kj && !(kReproducesB LK cur.kinds k dk) then
                 some s!"pg.NodeUpdateParameters:sent-kinds-do-not-reproduce e={entNo e}"
               else none
             | _, _, _, _ => some ("pg.NodeUpdateParameters:bad-output " ++ ret)
           | "builders-disagree" :: _ => some ("pg.LargeNodeUpdateRows:builders-disagree " ++ ret)
           | _ => some ("pg.NodeUpdateParameters:bad-output " ++ ret)
       | none => some "bad-op"
+  -- encoding/json round trip: nothing the tracking reports may change
+  | ["json", e] => match entOf e with
+      | some _ => if after != before then some "encoding/json:round-trip-changed-state" else none
+      | none => some "bad-op"
+  | ["hold", e] => match entOf e with
+      | some _ => if after != before then some "hold:read-changed-state" else none
+      | none => some "bad-op"
+  -- kind operation outside the guarded domain: only its effect on properties and on the other entity is judged
+  | ["kop", e] => match entOf e with
+      | some e => first [ propsSame "Node.kinds-op" e, frame "Node.kinds-op" e ]
+      | none => some "bad-op"
+  -- StripAllPropertiesExcept(ks): kept keys keep value and deletion, every other key is absent and untracked
+  | ["strip", e, ks] => match entOf e, (if ks = "-" then some [] else (ks.splitOn ",").mapM keyOf) with
+      | some e, some ks =>
+        let b := pick before e; let a := pick after e
+        let keys := keysOf b.m ++ keysOf a.m ++ b.del ++ a.del ++ a.mod ++ ks
+        let bad := keys.find? (fun k =>
+          let want : Option Val × Bool × Bool :=
+            if ks.contains k then
+              (if b.del.contains k then (none, false, true)
+               else match lookup b.m k with
+                 | some v => (some v, true, false)
+                 | none => (none, false, false))
+            else (none, false, false)
+          (lookup a.m k, a.mod.contains k, a.del.contains k) != want)
+        first [ bad.map (fun k' => s!"Node.StripAllPropertiesExcept:strip-result-wrong e={entNo e} key={keyStr k'}"),
+                kindsSame "Node.StripAllPropertiesExcept" e, frame "Node.StripAllPropertiesExcept" e ]
+      | _, _ => some "bad-op"
   | ["rmerge", e, f] => match entOf e, entOf f with
       | some e, some f =>
         let b := pick before e; let a := pick after e; let o := pick before f
@@ -235,6 +276,8 @@ def sites (verb : String) : String × String :=
   else if verb = "pmerge" then ("Properties.Merge", "Properties.Merge")
   else if verb = "merge" then ("Properties.Merge", "Node.Merge")
   else if verb = "rmerge" then ("Relationship.Merge", "Relationship.Merge")
+  else if verb = "json" then ("encoding/json", "encoding/json")
+  else if verb = "strip" then ("Node.StripAllPropertiesExcept", "Node.StripAllPropertiesExcept")
   else if verb = "addk" then ("Node.AddKinds", "Node.AddKinds")
   else if verb = "delk" then ("Node.DeleteKinds", "Node.DeleteKinds")
   else if verb = "load" then ("load", "load")
@@ -242,9 +285,22 @@ def sites (verb : String) : String × String :=
 
 def judgeBoth (st : MSt) (verb : String) (before : Option (Obs × Obs)) (after : Obs × Obs) : Option String :=
   let (site, ksite) := sites verb
-  match judgeEnt st.L st.LK site ksite 0 (before.map (·.1)) after.1 with
+  match judgeEnt (if st.att.1 then st.L else []) st.LK site ksite 0 (before.map (·.1)) after.1 with
   | some m => some m
-  | none => judgeEnt st.L st.LK site ksite 1 (before.map (·.2)) after.2
+  | none => judgeEnt (if st.att.2 then st.L else []) st.LK site ksite 1 (before.map (·.2)) after.2
+
+/-- the ghost flags after an operation (Spec: `Ent.attached`) -/
+def attAfter (att : Bool × Bool) (op : List String) : Bool × Bool :=
+  let get (e : Bool) := if e then att.2 else att.1
+  let set (e : Bool) (v : Bool) : Bool × Bool := if e then (att.1, v) else (v, att.2)
+  match op with
+  | ["strip", e, _] => match entOf e with | some e => set e false | none => att
+  | ["clone", e, f] => match entOf e, entOf f with | some e, some f => set f (get e) | _, _ => att
+  | [verb, e, f] =>
+    if verb = "pmerge" ∨ verb = "merge" ∨ verb = "rmerge" then
+      match entOf e, entOf f with | some e, some f => set e (get e || get f) | _, _ => att
+    else att
+  | _ => att
 
 def step (st : MSt) (ts : List String) : MSt × String :=
   let op := ts.takeWhile (· ≠ "=>")
@@ -254,18 +310,39 @@ def step (st : MSt) (ts : List String) : MSt × String :=
   | _, ["skipped"] => (st, "ok")
   | _, "panic" :: _ => (st, "ok")       -- panics are reported by the flow itself
   | _, _ =>
-    match splitOnTok "|" out with
+    let segs := splitOnTok "|" out
+    -- a fourth segment `H=…` (headers a caller kept) is compared by the tie, not judged here
+    let segs := if segs.length == 4 then segs.take 3 else segs
+    -- foreign Kind implementations leave the guarded domain
+    let st := if op.any (fun t => t.contains '!') then { st with kj := false } else st
+    match segs with
     | [retToks, d0, d1] =>
       let ret := " ".intercalate retToks
       match parseObs d0, parseObs d1 with
-      | some o0, some o1 =>
+      | some o0', some o1' =>
+        let dupLoad := match op with
+          | "load" :: _ :: ks :: rest =>
+            (match parseKinds ks false with
+             | some ks => (allSome ks).eraseDups.length != (allSome ks).length
+             | none => false) || rest.getD 1 "node" == "shared"
+          | _ => false
+        let kj := match op with
+          | "load" :: _ => !dupLoad && !(op.any (fun t => t.contains '!'))   -- every case starts with its own load
+          | _ => st.kj
+        let blank (o : Obs) : Obs := if kj then o else { o with kinds := [], added := [], removed := [] }
+        let o0 := blank o0'; let o1 := blank o1'
         let after := (o0, o1)
+        let op := if kj then op else match op with
+          | ["addk", e, _] => ["kop", e]
+          | ["delk", e, _] => ["kop", e]
+          | ["merge", e, f] => ["pmerge", e, f]
+          | _ => op
         match op with
         | "load" :: m :: ks :: ctor =>
           match parseMap m, parseKinds ks false with
           | some m, some ks =>
-            let st' : MSt := { L := m.getD [], LK := allSome ks, prev := some after }
-            let want : Obs := { m := m.getD [], kinds := allSome ks }
+            let st' : MSt := { L := m.getD [], LK := if kj then allSome ks else [], prev := some after, kj := kj }
+            let want : Obs := { m := m.getD [], kinds := if kj then allSome ks else [] }
             let site := "load." ++ (ctor.headD "as")
             if o0 != want || o1 != want then (st', s!"reject {site}:constructor-state-differs (a constructor must yield the given store and an empty delta)")
             else match judgeBoth st' "load" none after with
@@ -276,11 +353,14 @@ def step (st : MSt) (ts : List String) : MSt × String :=
           match st.prev with
           | none => (st, "reject bad-op no-load")
           | some before =>
-            let st' := { st with prev := some after }
-            match judgeOp st.L st.LK op ret before after with
+            let before := if kj then before else ({ before.1 with kinds := [], added := [], removed := [] },
+                                                  { before.2 with kinds := [], added := [], removed := [] })
+            let st' := { st with prev := some after, att := attAfter st.att op, kj := kj,
+                                 LK := if kj then st.LK else [] }
+            match judgeOp st.L st'.LK st.att kj op ret before after with
             | some msg => (st', "reject " ++ msg)
             | none =>
-              match judgeBoth st verb (some before) after with
+              match judgeBoth st' verb (some before) after with
               | some msg => (st', "reject " ++ msg)
               | none => (st', "ok")
         | [] => (st, "reject bad-op")
